@@ -3,7 +3,7 @@ import ast
 
 from ..consteval import ConstEval, class_consts_env, class_resolver, TOP
 from ..model import src, short, walk_no_nested, is_self_attr, call_name
-from ..util import cfg_of, known_atoms
+from ..util import cfg_of, known_atoms, find_nodes
 
 LO = ("nifty.cl.operators.linear_operator", "LinearOperator")
 OPS = "nifty.cl.operators."
@@ -389,7 +389,17 @@ def r01_3(ctx):
                     no_recip = any(("_trafo < 2" in a or "_trafo <= 1" in a or "& self.INVERSE_BIT == 0" in a or "_trafo in (0, 1)" in a)
                                    and not a.startswith("not") for a in assume)
                     same = len(raw) == 1 or any("_trafo ==" in a and not a.startswith("not") for a in assume)
-                    if has_add and len(raw) > 1 and not no_recip:
+                    known_zero = any("self._trafo == 0" in a and not a.startswith("not") for a in assume)
+                    # addends that are not raw diagonals (a scalar, another array)
+                    def addends(x):
+                        if isinstance(x, ast.BinOp) and isinstance(x.op, (ast.Add, ast.Sub)):
+                            return addends(x.left) + addends(x.right)
+                        return [x]
+                    foreign = [x for x in addends(diag) if not any(isinstance(y, ast.Attribute) and y.attr == "_ldiag" for y in ast.walk(x))]
+                    if has_add and foreign and not known_zero:
+                        ctx.bad(R, key, f"`{src(foreign[0])}` is added to a raw diagonal while its lazy transformation is kept: "
+                                        "conj(d + s) != conj(d) + s for complex s, 1/(d + s) != 1/d + s", fi, st)
+                    elif has_add and len(raw) > 1 and not no_recip:
                         ctx.bad(R, key, "raw diagonals are added while a lazy transformation that may contain the inverse bit is kept: "
                                         "1/(a+b) != 1/a + 1/b", fi, st)
                     elif name == "get_sqrt" or len(raw) == 1:
@@ -398,6 +408,92 @@ def r01_3(ctx):
                         ctx.check(R, key, True if same else None, "product of raw diagonals keeps a common lazy transformation", fi, st)
             elif raw and resolved:
                 ctx.bad(R, key, "mixes raw and transformation-resolved diagonals", fi, st)
+    # sign flags travel with their own operand in the sum-combiners
+    for modn, clsn in (("diagonal_operator", "DiagonalOperator"), ("block_diagonal_operator", "BlockDiagonalOperator")):
+        cc = m.cls(OPS + modn, clsn)
+        fi = cc.methods.get("_combine_sum")
+        if fi is None:
+            continue
+        ctx.saw_func(fi)
+        ps = fi.params()
+        if len(ps) < 4:
+            ctx.und(R, f"{fi.key}::sign flags", "signature changed", fi)
+            continue
+        other, sneg, oneg = ps[1], ps[2], ps[3]
+        pairs = []   # (operand owner 'self'|other, flag name)
+        for n in ast.walk(fi.node):
+            # form 1:  X * (-1 if FLAG else 1)
+            if isinstance(n, ast.BinOp) and isinstance(n.op, ast.Mult) and isinstance(n.right, ast.IfExp) and isinstance(n.right.test, ast.Name):
+                owner = "self" if "self." in src(n.left) else (other if f"{other}." in src(n.left) else None)
+                pairs.append((owner, n.right.test.id))
+            # form 2:  SumOperator.make([v1, v2], [f1, f2]) with (v1, v2) from zip(..., self._ops, op._ops)
+            if isinstance(n, ast.Call) and src(n.func).endswith("SumOperator.make") and len(n.args) == 2 \
+                    and isinstance(n.args[0], ast.List) and isinstance(n.args[1], ast.List) and len(n.args[0].elts) == len(n.args[1].elts) == 2:
+                zips = [g for g in ast.walk(fi.node) if isinstance(g, ast.comprehension) and isinstance(g.iter, ast.Call) and call_name(g.iter) == "zip"]
+                if zips and isinstance(zips[0].target, ast.Tuple):
+                    tnames = [src(e) for e in zips[0].target.elts]
+                    zargs = [src(a) for a in zips[0].iter.args]
+                    own = {}
+                    for tn_, za in zip(tnames, zargs):
+                        own[tn_] = "self" if za.startswith("self.") and "_ops" in za else (other if za.startswith(f"{other}.") and "_ops" in za else None)
+                    for v_, f_ in zip(n.args[0].elts, n.args[1].elts):
+                        pairs.append((own.get(src(v_)), src(f_)))
+        key = f"{fi.key}::each sign flag is applied to its own operand"
+        if not pairs or any(o is None for o, f_ in pairs):
+            ctx.und(R, key, f"{pairs}", fi)
+        else:
+            good = all((o == "self" and f_ == sneg) or (o == other and f_ == oneg) for o, f_ in pairs)
+            ctx.check(R, key, good, f"operand/flag pairs {pairs}; expected self<->{sneg}, {other}<->{oneg}", fi)
+    # SumOperator.simplify: the collected scalar takes the sign of a diagonal only on the path on which that diagonal absorbs it
+    simp = m.func(OPS + "sum_operator", "SumOperator.simplify")
+    ctx.saw_func(simp)
+    scfg = cfg_of(simp)
+    signs = [n for n in scfg.nodes if n.kind == "stmt" and isinstance(n.ast, ast.AugAssign) and isinstance(n.ast.op, ast.Mult)
+             and isinstance(n.ast.target, ast.Name) and isinstance(n.ast.value, ast.IfExp) and "neg" in src(n.ast.value.test)]
+    for sn_ in signs:
+        v = sn_.ast.target.id
+        absorb = [n.id for n, c_ in find_nodes(scfg, lambda q: isinstance(q, ast.Call) and call_name(q) == "_add" and [src(a) for a in q.args] == [v])]
+        heads = [n.id for n in scfg.nodes if n.kind == "for"]
+        esc = set(heads) & scfg.reachable_after(sn_.id, avoid=absorb, include_exc=False)
+        ctx.check(R, f"{simp.key}::`{sn_.text()}` only on the path where the diagonal absorbs the scalar", bool(absorb) and not esc,
+                  "the sign of a diagonal term is applied to the collected scalar although the term may be skipped afterwards", simp, sn_.ast)
+    # BlockDiagonalOperator admits any LinearOperator as a block (its own isinstance validation): every attribute it reads from a
+    # block must exist on LinearOperator, otherwise combining block operators (which creates chain/sum blocks) cannot be built
+    Bc = m.cls(OPS + "block_diagonal_operator", "BlockDiagonalOperator")
+    Lc = m.cls(*LO)
+    bi = Bc.methods["__init__"]
+    ctx.saw_func(bi)
+    admitted = any(isinstance(n, ast.Call) and src(n) .startswith("isinstance(") and src(n).endswith(", LinearOperator)") for n in ast.walk(bi.node))
+    blockvars = set()
+    for n in ast.walk(bi.node):
+        if isinstance(n, ast.comprehension) or isinstance(n, ast.For):
+            it = src(n.iter)
+            if "operators" in it or "self._ops" in it:
+                tg = n.target
+                elts = tg.elts if isinstance(tg, ast.Tuple) else [tg]
+                if it.endswith(".items()") and len(elts) == 2:
+                    elts = elts[1:]
+                for e in elts:
+                    if isinstance(e, ast.Name):
+                        blockvars.add(e.id)
+    reads = {}
+    for n in ast.walk(bi.node):
+        if isinstance(n, ast.Attribute) and isinstance(n.value, ast.Name) and n.value.id in blockvars and isinstance(n.ctx, ast.Load):
+            reads.setdefault(n.attr, n)
+    for attr, node in sorted(reads.items()):
+        defined = m.resolve_attr(Lc, attr) is not None
+        guarded = False
+        for g in ast.walk(bi.node):
+            if isinstance(g, ast.Call) and isinstance(g.func, ast.Name) and g.func.id in ("getattr", "hasattr") and len(g.args) >= 2 \
+                    and isinstance(g.args[1], ast.Constant) and g.args[1].value == attr:
+                guarded = True
+        ctx.check(R, f"{bi.key}::block attribute `.{attr}` exists on every admitted block type (LinearOperator)",
+                  (defined or guarded) if admitted else None,
+                  f"`.{attr}` is read from a block but LinearOperator does not define it: blocks produced by combining block operators "
+                  "(ChainOperator, SumOperator) make the constructor raise AttributeError", bi, node)
+    for attr_g in [g for g in ast.walk(bi.node) if isinstance(g, ast.Call) and isinstance(g.func, ast.Name) and g.func.id == "getattr"
+                   and len(g.args) == 3 and isinstance(g.args[0], ast.Name) and g.args[0].id in blockvars]:
+        ctx.ok(R, f"{bi.key}::block attribute `.{attr_g.args[1].value}` is read defensively", None, bi, attr_g)
     # ---- ChainOperator
     C = m.cls(OPS + "chain_operator", "ChainOperator")
     ctx.saw_class(C)
